@@ -100,6 +100,11 @@ func runEnc(c encCase) harness.Result {
 	}
 	// (b) byte for byte
 	want := spec.EncodeRequest(c.Framing, e)
+	if c.Framing == spec.RTU && len(want) > 2 {
+		if cl := hostile.BodyCRCClass(want[:len(want)-2]); cl != "" {
+			labels = append(labels, "rtu-body-crc:"+cl)
+		}
+	}
 	if !bytes.Equal(got, want) {
 		return harness.Fail("encoded\n  %x\nspecification prescribes\n  %x", got, want)
 	}
